@@ -257,6 +257,10 @@ class Library:
     def index(self, base, idx, mutable):
         """base: Ptr to array/Vec, or SliceRef;  idx: usize or range object"""
         I = self.I
+        if type(base) is Ptr and type(base.c[base.k]) is OpaqueSlice:
+            base = base.c[base.k]
+        if type(base) is OpaqueSlice:
+            return self.index_opaque(base, idx)
         sl = self.as_slice(base)
         if type(idx) is L and idx.tag == 'RangeFull':
             return SliceRef(sl.c, sl.start, sl.len, sl.is_str)
@@ -299,6 +303,46 @@ class Library:
                 return Ptr(cell, 0)
             raise Unsupported('symbolic index into non-scalar elements')
         raise Unsupported('index with %r' % (idx,))
+
+    def index_opaque(self, base, idx):
+        """range index into a string / slice of unknown content and symbolic length: bounds obligations, and for a str the
+        char-boundary requirement of str slicing, which nothing guarantees for an arbitrary string at a fixed byte offset"""
+        I = self.I
+        from .mirsym import Obligation
+        if not (type(idx) is L and idx.tag in ('Range', 'RangeTo', 'RangeFrom', 'RangeFull', 'RangeIncl')):
+            raise Unsupported('element index into an opaque slice')
+        n = base.length
+        if idx.tag == 'RangeFull':
+            return base
+        if idx.tag == 'Range':
+            s, e = idx[0], idx[1]
+        elif idx.tag == 'RangeTo':
+            s, e = 0, idx[0]
+        elif idx.tag == 'RangeFrom':
+            s, e = idx[0], n
+        else:
+            s, e = idx[0], T.add(64, idx[1], 1)
+
+        def oblige(c, msg):
+            if type(c) is int:
+                if not c:
+                    I.panic(None, msg)
+                return
+            I.obligations.append(Obligation(tuple(I.pc), c, 'bounds', 'str/slice range index', msg))
+            I.facts.append(T.implies(T.and_many(I.pc), c))
+        oblige(T.lnot(T.ult(64, e, s)), 'slice index starts after its end')
+        oblige(T.lnot(T.ult(64, n, e)), 'range end index out of range for slice')
+        if base.is_str:
+            for pos in (s, e):
+                if type(pos) is int and pos == 0:
+                    continue
+                if pos is n:
+                    continue
+                nm = 'char_boundary_%s_at_%s' % (base.ident, pos if type(pos) is int else 'sym%d' % I.alloc)
+                b = T.var(nm, 1)
+                # at the very end of the string every offset is a boundary
+                oblige(T.lor(b, T.eq(64, pos, n)), 'byte index is not a char boundary')
+        return OpaqueSlice('%s[%s..%s]' % (base.ident, s if type(s) is int else '?', e if type(e) is int else '?'), T.sub(64, e, s), base.is_str)
 
     # ------------------------------------------------------------ dispatch
     def call(self, fr, name, args, arg_ops):
@@ -567,6 +611,18 @@ class Library:
         @reg(r'^<\[.*\] as Index(Mut)?<.*>>::index(_mut)?$|^<Vec<.*> as Index(Mut)?<.*>>::index(_mut)?$', 'Index::index (array/slice/Vec)')
         def _index(fr, name, args, ops):
             return self.index(args[0], args[1], 'index_mut' in name)
+
+        @reg(r'^<(str|String) as Index(Mut)?<Range.*>>::index(_mut)?$', 'str range index (byte offsets)')
+        def _str_index(fr, name, args, ops):
+            base = args[0]
+            if type(base) is Ptr and type(base.c[base.k]) is L and base.c[base.k].tag == 'String':
+                b_ = base.c[base.k][0]
+                base = SliceRef(b_, 0, len(b_), True)
+            if type(base) is SliceRef:
+                for x in base.items():
+                    if not ((type(x) is int and x < 0x80) or (type(x) is Term and T.umax(x, x.w) < 0x80)):
+                        raise Unsupported('byte-offset slicing of a string that may hold non-ASCII characters')
+            return self.index(base, args[1], False)
 
         @reg(r'^<Vec<.*> as Deref(Mut)?>::deref(_mut)?$', 'Vec::deref')
         def _vec_deref(fr, name, args, ops):
@@ -886,6 +942,7 @@ class Library:
         libstr.register(self)
         libmore.register(self)
         libmore.register_cells(self)
+        libmore.register_ints(self)
 
     def apply_ctor_or_fn(self, fr, f, args):
         I = self.I
